@@ -76,7 +76,7 @@ def main():
     with open(DST + '/INDEX.md', 'w') as f:
         f.write('# Seeded changes (each breaks one property, compiles, passes the existing suite)\n\n')
         f.write('Demo files are stored with a `.txt` suffix so that nothing under /verif is picked up by `go test`; strip the suffix when placing them as `demo_path.txt` says.\n\n')
-        f.write('Every patch applies to the /repo commit it was evaluated on (752df4e for A-F and the fifth-wave G/H, 45e232c for the sixth-wave G/H); all but two still apply to the final tree: C09-C and C09-G edit the position arithmetic of the vault sweep that the repair e902c87 replaced afterwards (see note_on_final_tree in their meta.json; C09-G has a re-based patch next to the original).\n\n')
+        f.write('Every patch applies to the /repo commit it was evaluated on (752df4e for A-F and the fifth-wave G/H, 45e232c for the sixth-wave G/H); all but two still apply to the final tree: C09-C and C09-G edit the position arithmetic of the vault sweep that the repair 14e53bd replaced afterwards (see note_on_final_tree in their meta.json; C09-G has a re-based patch next to the original).\n\n')
         f.write('| id | change | verdict | labels that fired (quick tier, seed 0) |\n|---|---|---|---|\n')
         for k, t, v, l in rows:
             f.write('| %s | %s | %s | %s |\n' % (k, t.replace('|', '/'), v, l.replace('|', '/')))
